@@ -20,7 +20,8 @@ type FuncInfo struct {
 	order []int // reverse postorder
 	rpo   []int // block -> rpo number
 
-	syms map[ssa.Value]*Sym
+	syms    map[ssa.Value]*Sym
+	bfCache map[ssa.Value]*BF
 }
 
 var noReturnLoggerMethods = map[string]bool{"Panic": true, "Panicf": true, "Fatal": true, "Fatalf": true}
